@@ -221,3 +221,265 @@ def generate_other(rng):
             lines[j] = "MainRuns,0,31P,Counter,1.0,"
     return {"kind": "sniff_other", "lines": lines, "eol": rng.choice(["\n", "\r\n"]), "bom": rng.random() < 0.3,
             "final_eol": rng.random() < 0.7}
+
+
+# ----------------------------------------------------------------------------- texts outside the export format
+# A "text" case is a file given line by line (no terminators), derived from a small valid export by the edits below.
+# The property is silent about every one of them: pewlib is compared with the Lean model only, in one of two ways.
+#   strict : rows layout, edits from TEXT_EDITS_ROWS only.  These touch nothing but what `str.split` does with the four
+#            header rows and what `np.genfromtxt(usecols=...)` does with the sample rows (blank and comment lines are
+#            skipped, blanks at the line ends are stripped, a row counts as soon as it reaches the last selected column,
+#            no row at all gives an image without samples).  Every reader, the sniffer and load must equal the model,
+#            exceptions included.
+#   soft   : everything else (the columns layout, whose outcome hangs on how the reader compares the field counts of
+#            MainRuns lines, converts scan numbers and treats a single selected line; scan numbers and names that leave
+#            gaps or single columns or several columns per scan; names that pick up the line terminator).  A rewrite of the readers that keeps every
+#            export importing exactly may raise where the code now imports or the reverse, so only this is a
+#            correspondence failure: both pewlib and the model import and the results differ.  A difference in WHETHER
+#            they import is written into the evidence (feature `text:soft:import-differs`) and is not a violation.
+TEXT_EDITS_ROWS = ["none", "no-sample-rows", "row-without-trailing-delimiter", "rows-without-trailing-delimiter", "row-cut-after-selection",
+                   "row-cut-inside-selection", "row-with-extra-fields", "blank-line-end", "blank-line-middle", "blanks-line", "comment-line",
+                   "comment-after-row", "hash-in-sample-name", "hash-in-label", "blanks-around-row",
+                   "one-header-row-without-trailing-delimiter", "no-final-eol", "three-header-lines", "four-header-lines-no-eol",
+                   "header-row-longer", "blanks-in-value"]
+TEXT_EDITS_ROWS_SOFT = ["header-without-trailing-delimiter", "one-field-channel-row", "scan-not-integer", "scan-float", "scan-negative", "scan-gap", "scan-empty",
+                        "single-column-name"]
+TEXT_EDITS_COLS = ["none", "blank-line-end", "blank-line-middle", "blanks-line", "comment-line", "comment-after-line", "comment-cuts-delimiter",
+                   "hash-in-sample-name", "hash-in-label", "no-final-eol", "lines-without-trailing-delimiter", "lines-with-extra-delimiter",
+                   "empty-sample-name", "blank-sample-name", "no-selected-line", "one-selected-line", "first-line-blank",
+                   "blanks-in-value", "mainruns-prefix-line", "channel-as-substring", "lines-too-short",
+                   "scan-not-integer", "scan-not-integer-all", "scan-float", "scan-negative", "scan-empty", "line-with-extra-field",
+                   "line-without-trailing-delimiter", "line-missing", "single-line-name"]
+STRICT_ROWS = set(TEXT_EDITS_ROWS)
+
+
+def is_strict(case) -> bool:
+    """rows layout with strict edits only, or an unedited columns export with at least two scans (edit "none")"""
+    if case["layout"] == "cols":
+        return case["edits"] == ["none"]
+    return all(e in STRICT_ROWS for e in case["edits"])
+
+
+def small_acq(rng, decimal):
+    n, m, k = rng.choice([1, 2, 2, 3]), rng.choice([1, 2, 2, 3, 4]), rng.choice([1, 1, 2, 3])
+    channels = [c for c in ["Time", "Analog", "Counter"] if rng.random() < 0.75] or ["Counter"]
+    if rng.random() < 0.3:
+        channels = ["X [u]"] + channels
+    elements = rng.sample(LABELS, k)
+    samples = rng.sample(SAMPLES, n)
+    tokens = []
+    for i in range(n):
+        per_scan = []
+        for s in range(m):
+            per_el = []
+            for e in range(k):
+                per_ch = []
+                for ch in channels:
+                    if ch == "Time":
+                        tok = f"{0.2 + 0.4 * e + s * 0.25 + rng.choice([0, 1, -1]) * 1e-5:.5f}".rstrip("0")
+                        tok = tok + "0" if tok.endswith(".") else tok
+                    else:
+                        tok = rng.choice([str(rng.randint(0, 999)), f"{rng.uniform(-50, 900):.3f}", "0", "NaN", "1e3", "-2.5E-3"])
+                    per_ch.append(tok.replace(".", ",") if decimal == "," else tok)
+                per_el.append(per_ch)
+            per_scan.append(per_el)
+        tokens.append(per_scan)
+    return {"samples": samples, "nscans": m, "elements": elements, "channels": channels, "tokens": tokens}
+
+
+def edit_rows(t, edit, rng, a):
+    """t: the rows table (list of field lists, every line ending in an empty field); returns (lines as field lists, final_eol)"""
+    C, k, m, n = len(a["channels"]), len(a["elements"]), a["nscans"], len(a["samples"])
+    ncell = m * k * C
+    t = [list(r) for r in t]
+    body = list(range(4, len(t)))
+    j = rng.choice(body)
+    final = True
+    if edit == "no-sample-rows":
+        t = t[:4]
+    elif edit == "row-without-trailing-delimiter":
+        t[j] = t[j][:-1]
+    elif edit == "rows-without-trailing-delimiter":
+        for q in body:
+            t[q] = t[q][:-1]
+    elif edit == "row-cut-after-selection":       # drop the last cell(s) that belong to no Counter/Analog/Time column, if any
+        t[j] = t[j][:2 + ncell - rng.randint(0, 1)]
+    elif edit == "row-cut-inside-selection":
+        t[j] = t[j][:2 + rng.randint(0, max(0, ncell - C))]
+    elif edit == "row-with-extra-fields":
+        t[j] = t[j] + [rng.choice(["", "7", "x"])] * rng.randint(1, 3)
+    elif edit == "blank-line-end":
+        t.append(None)
+    elif edit == "blank-line-middle":
+        t.insert(rng.choice(body), None)
+    elif edit == "blanks-line":
+        t.insert(rng.randint(4, len(t)), ["   "])
+    elif edit == "comment-line":
+        t.insert(rng.randint(4, len(t)), [rng.choice(["# exported by Qtegra", "#", "  # note"])])
+    elif edit == "comment-after-row":
+        t[j] = t[j] + ["# checked"]
+    elif edit == "hash-in-sample-name":
+        t[j][0] = rng.choice(["Sample #1", "#3", "S#"])
+    elif edit == "hash-in-label":
+        e = rng.randrange(k)
+        for c in range(2, 2 + ncell):
+            if t[2][c] == a["elements"][e]:
+                t[2][c] = t[2][c] + "#2"
+    elif edit == "blanks-around-row":
+        t[j][0] = "  " + t[j][0]
+        t[j][-1] = "  "
+    elif edit == "header-without-trailing-delimiter":
+        for q in range(4):
+            t[q] = t[q][:-1]
+    elif edit == "one-header-row-without-trailing-delimiter":
+        q = rng.randrange(4)
+        t[q] = t[q][:-1]
+    elif edit == "no-final-eol":
+        final = False
+    elif edit == "three-header-lines":
+        t = t[:3]
+        final = rng.random() < 0.5
+    elif edit == "four-header-lines-no-eol":
+        t = t[:4]
+        final = False
+    elif edit == "one-field-channel-row":
+        t[3] = [rng.choice(a["channels"] + ["Counter"])]
+    elif edit == "header-row-longer":
+        q = rng.randrange(4)
+        t[q] = t[q] + [""]
+    elif edit == "blanks-in-value":
+        c = rng.randrange(2, 2 + ncell)
+        t[j][c] = " " + t[j][c] + " "
+    elif edit in ("scan-not-integer", "scan-float", "scan-negative", "scan-empty"):
+        s = rng.randrange(m)
+        new = {"scan-not-integer": "x", "scan-float": f"{s}.0", "scan-negative": "-1", "scan-empty": ""}[edit]
+        cols = [c for c in range(2, 2 + ncell) if t[1][c] == str(s)]
+        if edit == "scan-negative" and rng.random() < 0.5:
+            cols, new = list(range(2, 2 + ncell)), rng.choice(["-1", "-2"])
+        for c in cols:
+            t[1][c] = new
+    elif edit == "scan-gap":
+        for c in range(2, 2 + ncell):
+            if t[1][c] == str(m - 1):
+                t[1][c] = str(m + rng.randint(0, 2))
+    elif edit == "single-column-name":             # one element keeps a single scan: its only column is broadcast
+        e = rng.randrange(k)
+        for c in range(2, 2 + ncell):
+            if t[2][c] == a["elements"][e] and t[1][c] != "0":
+                t[0][c] = "Other"
+    return t, final
+
+
+def edit_cols(t, edit, rng, a):
+    C, k, m, n = len(a["channels"]), len(a["elements"]), a["nscans"], len(a["samples"])
+    t = [list(r) for r in t]
+    data = list(range(2, len(t)))
+    j = rng.choice(data)
+    final = True
+    if edit == "blank-line-end":
+        t.append(None)
+    elif edit == "blank-line-middle":
+        t.insert(rng.choice(data), None)
+    elif edit == "blanks-line":
+        t.insert(rng.randint(2, len(t)), ["  "])
+    elif edit == "comment-line":
+        t.insert(rng.randint(2, len(t)), [rng.choice(["# MainRuns Counter", "#", "MainRuns # Counter Analog Time"])])
+    elif edit == "comment-after-line":
+        t[j] = t[j] + ["# ok"]
+    elif edit == "comment-cuts-delimiter":         # every line: the comment replaces the trailing delimiter
+        for q in data:
+            t[q] = t[q][:-2] + [t[q][-2] + "# c"]
+    elif edit == "hash-in-sample-name":
+        i = rng.randrange(n)
+        t[0][4 + i] = rng.choice(["Sample #1", "#1", "S#"])
+    elif edit == "hash-in-label":
+        e = rng.randrange(k)
+        for q in data:
+            if t[q][2] == a["elements"][e]:
+                t[q][2] = t[q][2] + "#2"
+    elif edit == "no-final-eol":
+        final = False
+    elif edit == "lines-without-trailing-delimiter":
+        for q in data:
+            t[q] = t[q][:-1]
+        if rng.random() < 0.5:
+            t[0], t[1] = t[0][:-1], t[1][:-1]
+    elif edit == "lines-with-extra-delimiter":
+        for q in data:
+            t[q] = t[q] + [""]
+    elif edit == "empty-sample-name":
+        t[0][4 + rng.randrange(n)] = ""
+    elif edit == "blank-sample-name":
+        t[0][4 + rng.randrange(n)] = " "
+    elif edit == "no-selected-line":
+        t = t[:2]
+    elif edit == "one-selected-line":
+        keep = rng.choice(data)
+        t = t[:2] + [t[keep]]
+    elif edit == "first-line-blank":
+        t[0] = None
+    elif edit == "blanks-in-value":
+        t[j][4 + rng.randrange(n)] = " " + t[j][4 + rng.randrange(n)] + " "
+    elif edit == "mainruns-prefix-line":
+        t[j][0] = rng.choice(["MainRunsX", "MainRuns 2", " MainRuns", "mainRuns"])
+    elif edit == "channel-as-substring":
+        t[j][3] = rng.choice(["x" + t[j][3] + "y", t[j][3] + "s", t[j][3].lower()])
+    elif edit == "lines-too-short":
+        cut = rng.randint(1, n)
+        for q in data:
+            t[q] = t[q][:len(t[q]) - 1 - cut]
+    elif edit in ("scan-not-integer", "scan-float", "scan-negative", "scan-empty"):
+        t[j][1] = {"scan-not-integer": "x", "scan-float": t[j][1] + ".0", "scan-negative": rng.choice(["-1", "-3"]), "scan-empty": ""}[edit]
+    elif edit == "scan-not-integer-all":
+        new = rng.choice(["x", "-1", "-2", "0.5"])
+        for q in data:
+            t[q][1] = new
+    elif edit == "line-with-extra-field":
+        t[j] = t[j] + [rng.choice(["", "5"])]
+    elif edit == "line-without-trailing-delimiter":
+        t[j] = t[j][:-1]
+    elif edit == "line-missing":
+        del t[j]
+    elif edit == "single-line-name":               # one element keeps a single line: it is broadcast over the scans
+        e = rng.randrange(k)
+        t = t[:2] + [r for r in t[2:] if r[2] != a["elements"][e] or r[1] == "0"]
+    return t, final
+
+
+def generate_text(rng, tier, layout=None, edits=None):
+    delimiter, decimal = rng.choice([(",", "."), (";", "."), (";", ",")])
+    a = small_acq(rng, decimal)
+    layout = layout or rng.choice(["rows", "cols"])
+    if layout == "cols" and edits == ["none"]:
+        while a["nscans"] < 2:                      # one scan is below the property's quantifier (a single selected line raises)
+            a = small_acq(rng, decimal)
+    if edits is None:
+        r = rng.random()
+        if layout == "cols":
+            edits = rng.sample(TEXT_EDITS_COLS, 1 if r < 0.75 else 2)
+            if edits == ["none"]:
+                return generate_text(rng, tier, layout="cols", edits=["none"])
+        elif r < 0.6:
+            edits = [rng.choice(TEXT_EDITS_ROWS)]
+        elif r < 0.75:
+            edits = rng.sample(TEXT_EDITS_ROWS, 2)
+        elif r < 0.93:
+            edits = [rng.choice(TEXT_EDITS_ROWS_SOFT)]
+        else:
+            edits = [rng.choice(TEXT_EDITS_ROWS_SOFT), rng.choice(TEXT_EDITS_ROWS)]
+    t = table_rows(a) if layout == "rows" else table_cols(a)
+    final = True
+    done = []
+    for e in edits:
+        if len(t) < (5 if layout == "rows" else 3):
+            break                                   # nothing left to edit
+        try:
+            t, f = (edit_rows if layout == "rows" else edit_cols)(t, e, rng, a)
+        except (IndexError, TypeError, ValueError):
+            continue                                # an earlier edit removed what this one would change
+        final = final and f
+        done.append(e)
+    edits = done or ["unedited"]
+    lines = ["" if r is None else delimiter.join(r) for r in t]
+    return {"kind": "text", "layout": layout, "edits": list(edits), "lines": lines, "final_eol": final, "delimiter": delimiter,
+            "decimal": decimal, "explicit_delimiter": rng.random() < 0.4, "bom": rng.random() < 0.3, "eol": rng.choice(["\r\n", "\n"])}
